@@ -30,6 +30,9 @@ type Failure struct {
 
 type failPanic struct{ f *Failure }
 
+// abandonPanic ends a run without a verdict (see Spec.BudgetInconclusive).
+type abandonPanic struct{}
+
 // BudgetPanic is the sentinel the yield hook throws when a call exceeds its logical
 // step budget. It unwinds through the library (which contains no recover).
 type BudgetPanic struct{}
@@ -45,6 +48,8 @@ type Run struct {
 	obs        uint64
 	C          map[string]int64
 	Prop       string
+
+	budgetInconclusive bool
 }
 
 func (r *Run) Logf(format string, a ...interface{}) {
@@ -162,7 +167,16 @@ func (r *Run) Call(what string, budget int64, f func()) (panicDesc string) {
 			switch v := p.(type) {
 			case failPanic:
 				panic(v)
+			case abandonPanic:
+				panic(v)
 			case BudgetPanic:
+				if r.budgetInconclusive {
+					// the property says nothing about cost: a call that outruns the budget is
+					// abandoned, the run ends without a verdict and is counted
+					r.C["abandoned_over_step_budget"]++
+					r.Logf("%s: logical step budget %d exceeded: run abandoned without a verdict", what, budget)
+					panic(abandonPanic{})
+				}
 				r.Fail("step-budget", what, "%s: logical step budget %d exceeded (does not terminate / runs away)", what, budget)
 			case tape.Overrun:
 				panic(v)
@@ -228,6 +242,10 @@ type Spec struct {
 	// P"). Results must not depend on it; the value a failure was found under is recorded in the
 	// replay file and the replay re-executes itself under the same value.
 	ProcsSwarm []int
+	// BudgetInconclusive: exceeding the logical step budget of a call is not a violation of this
+	// property (it makes no statement about cost, and the algorithm is exponential in the worst
+	// case): the run is abandoned and counted (counter abandoned_over_step_budget) instead.
+	BudgetInconclusive bool
 }
 
 // childEnv is the environment for helper processes (isolated executions, cold runs, sequence
@@ -307,10 +325,12 @@ type result struct {
 }
 
 func execute(s *Spec, t *tape.Tape, tier string, tracing bool) (res result) {
-	r := &Run{T: t, Tier: tier, Tracing: tracing, C: map[string]int64{}, Prop: s.Property}
+	r := &Run{T: t, Tier: tier, Tracing: tracing, C: map[string]int64{}, Prop: s.Property, budgetInconclusive: s.BudgetInconclusive}
 	defer func() {
 		if p := recover(); p != nil {
 			switch v := p.(type) {
+			case abandonPanic:
+				// no verdict
 			case failPanic:
 				res.fail = v.f
 			case tape.Overrun:
